@@ -142,9 +142,15 @@ def run(ctx):
             return "own-socket"
         if ty.startswith("alloc::sync::Arc<crossbeam_queue::array_queue::ArrayQueue<"):
             return "stats-queue"
+        if ty.replace("&'static ", "&") in ("&core::sync::atomic::Atomic<bool>", "&core::sync::atomic::AtomicBool", "&std::sync::atomic::AtomicBool"):
+            # a shared reference to an atomic flag: allowed when it is the shutdown flag itself (the static the workers otherwise read directly)
+            from lib import closure_env_terms
+            envm = closure_env_terms(W, entry.path)
+            if any(v == ("static", "roughenough_server::KEEP_RUNNING") or values.contains(v, lambda s: s == ("static", "roughenough_server::KEEP_RUNNING")) for v in envm.values()):
+                return "shutdown-flag"
         return "OTHER:" + ty
     kinds = sorted(kind(c) for c in caps)
-    ctx.check("shared-state", "worker-closure-captures", kinds == ["config", "own-socket", "stats-queue"], "worker closure captures exactly: config mutex, its own socket, the stats queue",
+    ctx.check("shared-state", "worker-closure-captures", [k for k in kinds if k != "shutdown-flag"] == ["config", "own-socket", "stats-queue"], "worker closure captures exactly: config mutex, its own socket, the stats queue",
               "worker closure captures %s" % kinds, ctx.loc(entry))
     statics = {k: v for k, v in P.items.items() if v["kind"].startswith("Static") and v.get("crate") in ("roughenough", "roughenough_server")}
     mutable = sorted(k for k, v in statics.items() if v.get("mutable_static") or not v.get("freeze", True))
